@@ -86,6 +86,7 @@ namespace pika::threads::detail {
         }
 
         PIKA_VERIF_POST("sts.enter", get_thread_id_data(thrd), static_cast<int>(new_state), static_cast<int>(new_state_ex));
+        PIKA_VERIF_POST("place.hint", get_thread_id_data(thrd), static_cast<int>(schedulehint.mode), static_cast<std::uint16_t>(schedulehint.hint));
         thread_state previous_state;
         std::size_t k = 0;
         do {
